@@ -968,6 +968,13 @@ func (se *SpecEnv) applySpecFunc(sf *SpecFunc, args []*SExpr, x *SExpr) TV {
 		se.facts = append(se.facts, n.facts...)
 		return r
 	}
+	if sf.Rec && sf.Body != nil {
+		for _, p := range sf.Params {
+			if p.Type == "ref" {
+				return se.applyHeapRec(sf, avs)
+			}
+		}
+	}
 	// uninterpreted (or recursive: uninterpreted + unfolding axioms)
 	var targs []*Term
 	for i, p := range sf.Params {
@@ -1002,6 +1009,91 @@ func (se *SpecEnv) applySpecFunc(sf *SpecFunc, args []*SExpr, x *SExpr) TV {
 				body := n.eval(sf.Body)
 				if bt, ok := body.V.(*Term); ok {
 					se.Cur.assume(Eq(app, coerce(bt, app.Sort)))
+				}
+			}
+			c.recDepth--
+		}
+	}
+	return TV{app, rt}
+}
+
+// applyHeapRec: a recursive spec function over a slice (parameter type ref), e.g. a sum over the elements. It is an
+// uninterpreted function of its scalar arguments, the slice's base and offset, and the heap arrays its body reads
+// (found by evaluating the body once); each application outside a quantifier gets one unfolding of the definition
+// in the state it is evaluated in.
+func (se *SpecEnv) applyHeapRec(sf *SpecFunc, avs []TV) TV {
+	c := se.C
+	bind := func(n *SpecEnv) {
+		n.B = &Bindings{vals: map[string]TV{}}
+		n.Env = nil
+		n.Pkg = c.W.ByName[sf.PkgName]
+		for i, p := range sf.Params {
+			n.B.vals[p.Name] = avs[i]
+		}
+	}
+	if c.recHeapKeys == nil {
+		c.recHeapKeys = map[string][]string{}
+	}
+	keys, known := c.recHeapKeys[sf.Name]
+	if !known {
+		if c.recProbing[sf.Name] {
+			// the recursive application inside the probe
+			rs, rt := c.specSort(sf.Result)
+			return TV{c.freshVar("probe", rs), rt}
+		}
+		if c.recProbing == nil {
+			c.recProbing = map[string]bool{}
+		}
+		c.recProbing[sf.Name] = true
+		c.probeKeys = map[string]bool{}
+		n := *se
+		n.Cur = se.Cur.clone()
+		bind(&n)
+		n.facts = nil
+		n.eval(sf.Body)
+		for k := range c.probeKeys {
+			if !isGhostKey(k) {
+				keys = append(keys, k)
+			}
+		}
+		sort.Strings(keys)
+		c.probeKeys = nil
+		delete(c.recProbing, sf.Name)
+		c.recHeapKeys[sf.Name] = keys
+	}
+	var targs []*Term
+	for i, p := range sf.Params {
+		if p.Type == "ref" {
+			sl, ok := se.asSlice(avs[i])
+			if !ok || sl == nil {
+				se.fail("%s: slice argument expected", sf.Name)
+			}
+			targs = append(targs, sl.Base, sl.Off)
+			continue
+		}
+		targs = append(targs, se.specArg(avs[i], p.Type, sf.Name))
+	}
+	for _, k := range keys {
+		targs = append(targs, c.heapGet(se.Cur, k, c.keySorts[k]))
+	}
+	rs, rt := c.specSort(sf.Result)
+	app := App(sf.Name, rs, targs...)
+	if se.inQ == 0 {
+		key := app.String()
+		if c.recSeen == nil {
+			c.recSeen = map[string]bool{}
+		}
+		// (the unfolding is a fact of the state it is evaluated in: it is stated every time, on every path)
+		_ = key
+		if len(c.recApps) < 3000 {
+			c.recApps = append(c.recApps, recApp{sf: sf, app: app})
+			c.recDepth++
+			if c.recDepth <= 2 {
+				n := *se
+				bind(&n)
+				body := n.eval(sf.Body)
+				if bt, ok := body.V.(*Term); ok {
+					se.assumeFact(Eq(app, coerce(bt, app.Sort)))
 				}
 			}
 			c.recDepth--
